@@ -107,7 +107,7 @@ def main():
         # restore the generated tables of this property from /repo itself
         renv = dict(os.environ)
         renv.pop("ORSO_REPO", None)
-        sh("python3 tools/check.py --gen-all", cwd=VERIF, env=renv, timeout=600)
+        sh(f"python3 tools/check.py {pid} --gen-only", cwd=VERIF, env=renv, timeout=600)
 
 
 if __name__ == "__main__":
